@@ -3,6 +3,7 @@ package c06
 import (
 	"fmt"
 	"math"
+	"strings"
 
 	"verif/engine/common"
 	vp "verif/engine/lib/valpool"
@@ -69,6 +70,18 @@ func swExpected(form int, ab, ac tri) int {
 }
 
 func swOne(form int, a, b, c vp.Val, ab, ac tri) (string, string) {
+	if form >= 100 {
+		bLit, _ := b.Operand()
+		src, ok := literalSwitchSrc(bLit, (form-100)/3, (form-100)%3, ab, fillerEq(a))
+		if !ok {
+			return "", ""
+		}
+		t, d := evalSrc(src, map[string]interface{}{"a": a.Go()})
+		if t == triTrue {
+			return "", ""
+		}
+		return "a=" + a.String() + ": " + src, d
+	}
 	want := swExpected(form, ab, ac)
 	src := fmt.Sprintf(swForms[form], want)
 	t, d := evalSrc(src, map[string]interface{}{"a": a.Go(), "b": b.Go(), "c": c.Go()})
@@ -80,6 +93,122 @@ func swOne(form int, a, b, c vp.Val, ab, ac tri) (string, string) {
 		return cs, d
 	}
 	return cs, fmt.Sprintf("`a == b` gives %v and `a == c` gives %v, so r must be %d; it is not", ab, ac, want)
+}
+
+// literalSwitch: a switch whose cases are all LITERALS, with 0..16 filler cases
+// (integer and string literals equal to no pool value) around the one case that
+// may equal the subject: whatever the number of cases, the case runs exactly
+// when `a == b` says so (an interpreter may build a look-up table for large
+// all-literal switches; the table has to use the language's relation).
+func fillerLit(n int) string {
+	if n%2 == 0 {
+		return fmt.Sprint(7100 + n)
+	}
+	return fmt.Sprintf("\"q%d\"", 7100+n)
+}
+
+// literalSwitchCases lists the case literals in written order; index `at` is the
+// case under test (the others are fillers 1..fillers).
+func literalSwitchCases(bLit string, fillers, pos int) (lits []string, at int) {
+	before := 0
+	switch pos {
+	case 1:
+		before = fillers / 2
+	case 2:
+		before = fillers
+	}
+	n := 0
+	for i := 0; i < before; i++ {
+		n++
+		lits = append(lits, fillerLit(n))
+	}
+	at = len(lits)
+	lits = append(lits, bLit)
+	for i := before; i < fillers; i++ {
+		n++
+		lits = append(lits, fillerLit(n))
+	}
+	return lits, at
+}
+
+// literalSwitchSrc renders the statement; fillEq[k] is the implementation's own
+// `a == filler k` (a boolean subject equals every truthy filler, for instance):
+// the expected r is that of the FIRST case equal to the subject.
+func literalSwitchSrc(bLit string, fillers, pos int, ab tri, fillEq []tri) (string, bool) {
+	lits, at := literalSwitchCases(bLit, fillers, pos)
+	var sb []string
+	want, decided, n := 0, false, 0
+	for i, l := range lits {
+		r := -1
+		e := ab
+		if i == at {
+			r = 1
+		} else {
+			n++
+			e = fillEq[n]
+		}
+		if e != triTrue && e != triFalse {
+			return "", false
+		}
+		if e == triTrue && !decided {
+			want, decided = r, true
+		}
+		sb = append(sb, fmt.Sprintf("case %s: r = %d", l, r))
+	}
+	return fmt.Sprintf("r = 0; switch a {\n%s\n}; r == %d", strings.Join(sb, "\n"), want), true
+}
+
+func fillerEq(a vp.Val) []tri {
+	out := make([]tri, 17)
+	for k := 1; k <= 16; k++ {
+		out[k], _ = evalSrc("a == "+fillerLit(k), map[string]interface{}{"a": a.Go()})
+	}
+	return out
+}
+
+func runLiteralSwitch(c *common.Ctx, res *common.Result, p []vp.Val, eq [][]tri) {
+	n := len(p)
+	type hit struct {
+		cs, d   string
+		j, f, q int
+	}
+	out := make([][]hit, n)
+	common.ParallelFor(c, n, func(i int) {
+		fe := fillerEq(p[i])
+		for j := 0; j < n; j++ {
+			bLit, ok := p[j].Operand()
+			if !ok || (eq[i][j] != triTrue && eq[i][j] != triFalse) {
+				continue
+			}
+			for _, fillers := range []int{0, 3, 7, 8, 12, 16} {
+				for pos := 0; pos < 3; pos++ {
+					if fillers == 0 && pos > 0 {
+						continue
+					}
+					src, ok := literalSwitchSrc(bLit, fillers, pos, eq[i][j], fe)
+					if !ok {
+						continue
+					}
+					res.Add("evaluations", 1)
+					res.Add("evaluations:all-literal switch", 1)
+					res.Add("distinct_nontrivial", 1)
+					t, d := evalSrc(src, map[string]interface{}{"a": p[i].Go()})
+					if t != triTrue {
+						if t != triErr {
+							d = fmt.Sprintf("`a == b` gives %v (and == decides the filler cases the same way): the first equal case does not run", eq[i][j])
+						}
+						out[i] = append(out[i], hit{"a=" + p[i].String() + ": " + strings.ReplaceAll(src, "\n", "; "), d, j, fillers, pos})
+					}
+				}
+			}
+		}
+	})
+	for i := 0; i < n; i++ {
+		for _, h := range out[i] {
+			res.Violate(common.Violation{Class: fmt.Sprintf("literal-switch-differs-from-eq/%d-fillers/", h.f) + p[i].K.String() + "," + p[h.j].K.String(), Case: h.cs, Detail: h.d,
+				Replay: swReplay{Law: "multi-switch", A: p[i], B: p[h.j], C: p[h.j], Form: 100 + h.f*3 + h.q}})
+		}
+	}
 }
 
 func runMultiSwitch(c *common.Ctx, res *common.Result) {
@@ -113,6 +242,7 @@ func runMultiSwitch(c *common.Ctx, res *common.Result) {
 			}
 		}
 	})
+	runLiteralSwitch(c, res, p, eq)
 	for i := 0; i < n; i++ {
 		for x, h := range out[i] {
 			code := forms[i][x]
